@@ -42,9 +42,17 @@ import (
 //   c14 rest <thr> <client> <METHOD> <json|text|none> <resource> <tail|-> <body>
 //   c14 par <thr> <client> <n> <nonce> <overlap|plain>   one request to n servers at once
 //        (SendProtobufParallelWithDecoder); overlap: a decoder that makes two replies overlap
+//   c14 all <thr> <client> <n> <path> <hex>   the same request to n servers one after the other (Client.SendToAll)
 //   c14 barrier
 //   c14 procs <n>      GOMAXPROCS of the (sub-)process running the server and the clients
 //   c14 calls
+//
+// websocket client names: k… kept-alive onet.Client, o… single-use, q… kept-alive with a short read
+// time-out, r… raw pipelining connection, x… onet.Client for a service name that does not exist,
+// u… single-use client addressing the server by host and port (identity without URL), p… kept-alive
+// client that sends decodable requests through Client.SendProtobuf.
+// par modes: overlap | plain | ordered (ParallelOptions: DontShuffle, StartNode 1, Parallel 2, node 2
+// ignored: the node handed back must be one of the nodes that may be asked) | quit (QuitError).
 //
 // body: `-` (no body) | `syntax` | `{}` | items separated by `;`:
 //   F=<int> (A), F=<hex> (S, B; `-` is empty), F=null, F! (ill-typed value), X=<int> (unknown field);
@@ -54,6 +62,8 @@ type c14env struct {
 	l    *onet.LocalTest
 	srv  *onet.Server
 	srvs []*onet.Server
+	// the first server's identity without its URL: the client then derives host and port itself
+	noURL *network.ServerIdentity
 	base string
 	ws   map[string]*onet.Client
 	hc   map[string]*http.Client
@@ -76,8 +86,22 @@ func c14start(n int) *c14env {
 func (e *c14env) doPar(tk []string) string {
 	n, err1 := strconv.Atoi(tk[4])
 	nonce, err2 := strconv.ParseInt(tk[5], 10, 64)
-	if err1 != nil || err2 != nil || n < 3 || n > len(e.srvs) || (tk[6] != "overlap" && tk[6] != "plain") {
+	if err1 != nil || err2 != nil || n < 3 || n > len(e.srvs) || (tk[6] != "overlap" && tk[6] != "plain" && tk[6] != "ordered" && tk[6] != "quit") {
 		return "bad-op"
+	}
+	var opt *onet.ParallelOptions
+	mayAsk := map[string]bool{}
+	switch tk[6] {
+	case "ordered":
+		opt = &onet.ParallelOptions{DontShuffle: true, StartNode: 1, Parallel: 2, AskNodes: n - 1,
+			IgnoreNodes: []*network.ServerIdentity{e.srvs[2].ServerIdentity}}
+		for i := 1; i < n; i++ {
+			if i != 2 {
+				mayAsk[string(e.srvs[i].ServerIdentity.Address)] = true
+			}
+		}
+	case "quit":
+		opt = &onet.ParallelOptions{QuitError: true}
 	}
 	var nodes []*network.ServerIdentity
 	for _, s := range e.srvs[:n] {
@@ -110,9 +134,19 @@ func (e *c14env) doPar(tk []string) string {
 		return nil
 	}
 	ret := &C14WhoReply{}
-	node, err := e.wsClient(tk[3]).SendProtobufParallelWithDecoder(nodes, &C14Who{Nonce: nonce}, ret, nil, decoder)
+	var node *network.ServerIdentity
+	var err error
+	if tk[6] == "quit" {
+		// the variant with the library's decoder
+		node, err = e.wsClient(tk[3]).SendProtobufParallel(nodes, &C14Who{Nonce: nonce}, ret, opt)
+	} else {
+		node, err = e.wsClient(tk[3]).SendProtobufParallelWithDecoder(nodes, &C14Who{Nonce: nonce}, ret, opt, decoder)
+	}
 	if err != nil || node == nil {
 		return "err"
+	}
+	if len(mayAsk) > 0 && !mayAsk[string(node.Address)] {
+		return fmt.Sprintf("mismatch node=%s is not among the nodes that may be asked", node.Address)
 	}
 	mu.Lock()
 	got := *ret
@@ -128,6 +162,37 @@ func (e *c14env) doPar(tk []string) string {
 		return "ok pair"
 	}
 	return fmt.Sprintf("mismatch node=%s reply-of=%s nonce=%d", node.Address, got.Addr, got.Nonce)
+}
+
+// doAll sends one request to the first n servers one after the other
+// (Client.SendToAll): every server owes the same reply.
+func (e *c14env) doAll(tk []string) string {
+	n, err := strconv.Atoi(tk[4])
+	buf, ok := c14hex(tk[6])
+	if err != nil || !ok || n < 1 || n > len(e.srvs) {
+		return "bad-op"
+	}
+	var sis []*network.ServerIdentity
+	for _, s := range e.srvs[:n] {
+		sis = append(sis, s.ServerIdentity)
+	}
+	reps, err := e.wsClient(tk[3]).SendToAll(onet.NewRoster(sis), tk[5], buf)
+	if err != nil {
+		return c14wsErr(err)
+	}
+	first := ""
+	for i, rep := range reps {
+		r, ok := c14decodeReply(rep)
+		if !ok {
+			return "undecodable-reply " + h.Hex(rep)
+		}
+		if i == 0 {
+			first = c14showReply(r)
+		} else if c14showReply(r) != first {
+			return fmt.Sprintf("differ server0=%s server%d=%s", first, i, c14showReply(r))
+		}
+	}
+	return "ok " + first
 }
 
 // c14startServer starts one TCP server whose websocket/HTTP port answers.
@@ -168,7 +233,9 @@ func (e *c14env) wsClient(name string) *onet.Client {
 	defer e.mu.Unlock()
 	c, ok := e.ws[name]
 	if !ok {
-		if strings.HasPrefix(name, "k") {
+		if strings.HasPrefix(name, "x") {
+			c = onet.NewClient(fix.Suite, "VerifC14NoSuchService")
+		} else if strings.HasPrefix(name, "k") || strings.HasPrefix(name, "p") {
 			c = onet.NewClientKeep(fix.Suite, c14ServiceName)
 		} else {
 			c = onet.NewClient(fix.Suite, c14ServiceName)
@@ -295,7 +362,42 @@ func (e *c14env) doWS(tk []string) string {
 	if !ok {
 		return "bad-op"
 	}
-	rep, err := e.wsClient(tk[3]).Send(e.srv.ServerIdentity, tk[4], buf)
+	si := e.srv.ServerIdentity
+	if strings.HasPrefix(tk[3], "u") {
+		e.mu.Lock()
+		if e.noURL == nil {
+			cp := *si
+			cp.URL = ""
+			e.noURL = &cp
+		}
+		si = e.noURL
+		e.mu.Unlock()
+	}
+	if strings.HasPrefix(tk[3], "p") {
+		// through SendProtobuf when the buffer is a message the typed API can carry
+		var msg interface{}
+		var m C14Echo
+		// (not for integers of magnitude >= 2^62: the library's reply decoder, which SendProtobuf
+		// uses, mis-decodes them — not onet's)
+		if protobuf.Decode(buf, &m) == nil && m.A < 1<<62 && m.A > -(1<<62) {
+			switch tk[4] {
+			case "C14Echo":
+				msg = &m
+			case "C14Swap":
+				msg = &C14Swap{A: m.A, S: m.S, B: m.B}
+			case "C14Both":
+				msg = &C14Both{A: m.A, S: m.S, B: m.B}
+			}
+		}
+		if msg != nil {
+			var r C14Reply
+			if err := e.wsClient(tk[3]).SendProtobuf(si, msg, &r); err != nil {
+				return c14wsErr(err)
+			}
+			return "ok " + c14showReply(&r)
+		}
+	}
+	rep, err := e.wsClient(tk[3]).Send(si, tk[4], buf)
 	if err != nil {
 		return c14wsErr(err)
 	}
@@ -504,7 +606,7 @@ func c14exec(c *h.Ctx, cs *h.Case) {
 	nsrv := 1
 	for _, op := range cs.Ops {
 		tk := strings.Fields(op)
-		if len(tk) == 7 && tk[1] == "par" {
+		if len(tk) == 7 && (tk[1] == "par" || tk[1] == "all") {
 			if n, err := strconv.Atoi(tk[4]); err == nil && n > nsrv && n <= 8 {
 				nsrv = n
 			}
@@ -543,6 +645,8 @@ func c14exec(c *h.Ctx, cs *h.Case) {
 						cs.Impl[j.i] = e.doWS(j.tk)
 					case j.tk[1] == "par":
 						cs.Impl[j.i] = e.doPar(j.tk)
+					case j.tk[1] == "all":
+						cs.Impl[j.i] = e.doAll(j.tk)
 					default:
 						cs.Impl[j.i] = e.doREST(j.tk)
 					}
@@ -556,7 +660,7 @@ func c14exec(c *h.Ctx, cs *h.Case) {
 		tk := strings.Fields(op)
 		switch {
 		case len(tk) == 6 && tk[0] == "c14" && tk[1] == "ws", len(tk) == 9 && tk[0] == "c14" && tk[1] == "rest",
-			len(tk) == 7 && tk[0] == "c14" && tk[1] == "par":
+			len(tk) == 7 && tk[0] == "c14" && (tk[1] == "par" || tk[1] == "all"):
 			if _, ok := threads[tk[2]]; !ok {
 				order = append(order, tk[2])
 			}
@@ -606,6 +710,10 @@ func c14owed(tk []string, kept *[]byte) (kind, want string, called bool) {
 		}
 		r, _ := c14Transform(tag, a, s, b)
 		return "reply", c14showReply(r), true
+	}
+	if tk[1] == "ws" && strings.HasPrefix(tk[3], "x") {
+		// a service name that does not exist: no handler can be meant
+		return "error", "", false
 	}
 	if tk[1] == "ws" {
 		tag := map[string]string{"C14Echo": "Echo", "C14Swap": "Swap", "C14Key": "Key", "C14Keep": "Keep", "C14Both": "BothWs"}[tk[4]]
@@ -751,6 +859,27 @@ func c14oracle(cs *h.Case) {
 			}
 			continue
 		}
+		if len(tk) == 7 && tk[1] == "all" {
+			// every one of the n servers owes what one server owes to this request
+			n, _ := strconv.Atoi(tk[4])
+			wtk := []string{"c14", "ws", tk[2], tk[3], tk[5], tk[6]}
+			classes["all:"+strings.Fields(obs + " -")[0]] = true
+			kind, want, called := c14owed(wtk, &kept)
+			if called {
+				wantCalls += int64(n)
+			}
+			switch kind {
+			case "reply":
+				if obs != "ok "+want {
+					cs.Fail("c14:wrong-reply:all", fmt.Sprintf("request %d %q to %d servers was answered %q, every server owes %q", i, op, n, obs, want))
+				}
+			case "error":
+				if !strings.HasPrefix(obs, "close ") {
+					cs.Fail("c14:error-not-reported:all", fmt.Sprintf("request %d %q must be answered with an error, got %q", i, op, obs))
+				}
+			}
+			continue
+		}
 		if len(tk) < 6 || (tk[1] != "ws" && tk[1] != "rest") {
 			continue
 		}
@@ -777,7 +906,7 @@ func c14oracle(cs *h.Case) {
 		case "error":
 			isErr := false
 			if tk[1] == "ws" {
-				isErr = strings.HasPrefix(obs, "close 1002 ") || obs == "close 1006 other" || obs == "close" || obs == "close - timeout"
+				isErr = strings.HasPrefix(obs, "close 1002 ") || obs == "close 1006 other" || obs == "close" || obs == "close - timeout" || obs == "close 4001 noservice"
 			} else {
 				isErr = len(obs) > 3 && obs[0] >= '4' && obs[0] <= '5' && !strings.HasPrefix(obs, "200")
 			}
@@ -800,6 +929,9 @@ func c14oracle(cs *h.Case) {
 type c14gen struct {
 	c   *h.Ctx
 	val int64
+	// narrow: no integers of magnitude >= 2^62 (the library's own reply decoder, which SendProtobuf
+	// uses, mis-decodes them: not onet's)
+	narrow bool
 }
 
 var c14words = []string{"", "a", "42", "hello", "x y", "fail", "panic", "nil", "panicerr", "panicint", "panicstruct", "panicf", "Fail", "zz9", "onet"}
@@ -852,7 +984,7 @@ func (g *c14gen) int(wide bool) int64 {
 	case 1:
 		return -1 - int64(r.Intn(1000))
 	case 2:
-		if wide {
+		if wide && !g.narrow {
 			return []int64{1<<63 - 1, -1 << 63, 1 << 62, -(1 << 62)}[r.Intn(4)]
 		}
 		return []int64{1<<53 - 1, -(1<<53 - 1)}[r.Intn(2)]
@@ -1182,7 +1314,23 @@ func c14genCases(c *h.Ctx, yield func(*h.Case)) {
 	{
 		// one request to several servers at once, two replies overlapping (seed C14r3-A)
 		cs := &h.Case{Class: "corpus:parallel-send"}
-		cs.Ops = append(cs.Ops, "c14 par t1 o1 3 7 overlap", "c14 par t1 k1 5 8 overlap", "c14 par t1 o1 4 9 plain")
+		cs.Ops = append(cs.Ops, "c14 par t1 o1 3 7 overlap", "c14 par t1 k1 5 8 overlap", "c14 par t1 o1 4 9 plain",
+			"c14 par t1 o1 4 10 ordered", "c14 par t1 k1 3 11 quit")
+		emit(cs)
+	}
+	{
+		// the other ways into the client: a service name that does not exist, a server addressed by host
+		// and port, the typed API (SendProtobuf), one request to several servers in turn (SendToAll)
+		cs := &h.Case{Class: "corpus:client-kinds"}
+		enc := func(a int64, s string) string {
+			b, _ := protobuf.Encode(&C14Echo{A: a, S: s, B: []byte{5}})
+			return h.Hex(b)
+		}
+		cs.Ops = append(cs.Ops, "c14 ws t1 x1 C14Echo "+enc(1, "one"), "c14 ws t1 u1 C14Echo "+enc(2, "two"),
+			"c14 ws t1 p1 C14Echo "+enc(3, "three"), "c14 ws t1 p1 C14Swap "+enc(4, "fail"), "c14 ws t1 p1 C14Both "+enc(5, "five"),
+			"c14 ws t1 p1 C14Echo ff", "c14 ws t1 u1 C14Swap "+enc(6, "panic"), "c14 ws t1 u1 C14Echo "+enc(7, "seven"),
+			"c14 all t1 k1 3 C14Echo "+enc(8, "eight"), "c14 all t1 o1 2 C14Swap "+enc(9, "fail"), "c14 all t1 k1 3 C14Both "+enc(10, "ten"),
+			"c14 all t1 k1 2 Nope "+enc(11, "x"), "c14 all t1 k1 3 C14Echo 0a")
 		emit(cs)
 	}
 
@@ -1201,7 +1349,7 @@ func c14genCases(c *h.Ctx, yield func(*h.Case)) {
 		emit(cs)
 	}
 
-	n := c.Pick(200, 2500)
+	n := c.Pick(140, 2500)
 	for it := 0; it < n && !c.TooManyFails(); it++ {
 		if it%2 == 0 {
 			// both APIs of one message type at once, from several threads
@@ -1342,9 +1490,48 @@ func c14genCases(c *h.Ctx, yield func(*h.Case)) {
 			nthr = 1 + r.Intn(3)
 			for i := 0; i < nthr*(1+r.Intn(3)); i++ {
 				cl := []string{"o0", "k0", fmt.Sprintf("o%d", 1+r.Intn(3))}[r.Intn(3)]
-				mode := []string{"overlap", "overlap", "plain"}[r.Intn(3)]
+				mode := []string{"overlap", "overlap", "plain", "ordered", "quit"}[r.Intn(5)]
 				c.Count("par:" + mode)
-				cs.Ops = append(cs.Ops, fmt.Sprintf("c14 par t%d %s %d %d %s", r.Intn(nthr), cl, 3+r.Intn(3), 100+g.int(false)%1000000, mode))
+				nn := 3 + r.Intn(3)
+				if mode == "ordered" && nn == 3 {
+					nn = 4 // node 0 is skipped and node 2 ignored: at least two nodes remain
+				}
+				cs.Ops = append(cs.Ops, fmt.Sprintf("c14 par t%d %s %d %d %s", r.Intn(nthr), cl, nn, 100+g.int(false)%1000000, mode))
+			}
+			emit(cs)
+		}
+
+		if it%4 == 0 {
+			// every way into the client, several threads
+			cs = &h.Case{Class: "client-kinds"}
+			g.narrow = true
+			nthr = 1 + r.Intn(4)
+			for i := 0; i < nthr*(3+r.Intn(5)); i++ {
+				t := r.Intn(nthr)
+				thr := fmt.Sprintf("t%d", t)
+				cl := []string{"p0", "p0", fmt.Sprintf("p%d", 1+t), "u0", fmt.Sprintf("u%d", 1+t), "x0"}[r.Intn(6)]
+				path := []string{"C14Echo", "C14Echo", "C14Swap", "C14Both", g.wsPath()}[r.Intn(5)]
+				hint := 0
+				if r.Intn(4) == 0 {
+					hint = -1
+				}
+				wsop(cs, thr, cl, path, hint)
+			}
+			g.narrow = false
+			emit(cs)
+		}
+		if it%10 == 0 {
+			// one request to several servers in turn
+			cs = &h.Case{Class: "send-to-all"}
+			for i, m := 0, 1+r.Intn(4); i < m; i++ {
+				hint := 0
+				if r.Intn(3) == 0 {
+					hint = -1
+				}
+				buf, kind := g.wsBuf(hint)
+				c.Count("all:" + kind)
+				cs.Ops = append(cs.Ops, fmt.Sprintf("c14 all t%d %s %d %s %s", r.Intn(2), []string{"k0", "o0", "k1"}[r.Intn(3)], 2+r.Intn(3),
+					[]string{"C14Echo", "C14Swap", "C14Both", g.wsPath()}[r.Intn(4)], buf))
 			}
 			emit(cs)
 		}
